@@ -144,7 +144,7 @@ def describe(c):
 def run(tier, seed):
     rep = core.Report("C18", tier, seed)
     quick = tier == "quick"
-    r = core.must_pass(core.tlc("MCRuns", cfg(12 if quick else 16, 5 if quick else 6, 0), workers=core.NCPU, timeout=3000, heap="6g"), "runs scope")
+    r = core.must_pass(core.tlc("MCRuns", cfg(12 if quick else 14, 5 if quick else 6, 0), workers=core.NCPU, timeout=3000, heap="6g"), "runs scope")
     rep.add_mc("MCRuns (lroo loop, croo pipeline = declarative runs; croo <= max(lroo,1))", r)
     r = core.tlc("MCRuns", cfg(9, 1, 3), workers=4, timeout=600)
     if r.violated_name() != "Holds":
